@@ -79,6 +79,8 @@ def run(ctx):
     q = ctx.quick
     ctx.units("golden-asts", unit_golden, [{}])
     ctx.units("model-documents", unit_model, [{"n": 1200 if q else 8000, "seed": ctx.seed, "shard": i} for i in range(8 if q else 16)], procs=16)
+    from . import magnitude
+    magnitude.run_big(ctx, "c03_noisy", "check_noisy", "noisy")
     try:
         from . import c03_noisy
         c03_noisy.run_noisy(ctx)
